@@ -4,6 +4,7 @@ import (
 	"bytes"
 	"fmt"
 	"io"
+	"os"
 	"reflect"
 	"sort"
 	"strings"
@@ -35,6 +36,14 @@ func pickAnyParser() *world {
 
 // pickWorld draws a world: half of the time a core world, otherwise a mini or an example world.
 func pickWorld() *world {
+	if only := os.Getenv("VERIF_ONLY_WORLD"); only != "" {
+		// diagnosis only (never set by the registered commands): restrict the draw to one world
+		for _, w := range robustWorlds {
+			if w.name == only {
+				return w
+			}
+		}
+	}
 	switch simrt.Choose(4) {
 	case 0, 1:
 		return coreWorlds[simrt.Choose(len(coreWorlds))]
